@@ -872,6 +872,13 @@ class Message(ABC):
                     # This was set, so make it the selected value of the one-of.
                     group_current[meta.group] = field_name
 
+        # Only the selected member of a one-of keeps its value: given several members
+        # of one group the last one wins, as it does for successive assignments.
+        for field_name, group in self._betterproto.oneof_group_by_field.items():
+            if group_current[group] != field_name:
+                if self.__raw_get(field_name) is not PLACEHOLDER:
+                    super().__setattr__(field_name, PLACEHOLDER)
+
         # Now that all the defaults are set, reset it!
         self.__dict__["_serialized_on_wire"] = not all_sentinel
         self.__dict__["_unknown_fields"] = b""
